@@ -130,7 +130,7 @@ def run(prog: Program, res: Result) -> None:
     res.ob(not issues, "base trims / sorted pairing as specified", "population-helpers")
     for (rule, node, msg) in issues:
         res.add(Finding(P, f"C17.R2-{rule.split('-', 1)[1]}", construct_key(prog, node, g.module), f"{g.module.relpath}:{node.lineno}", msg))
-    from ..ord import L, OrdUnknown, evaluate
+    from ..ord import L, OrdDeviation, OrdUnknown, evaluate
     from ..sgn import MIN
     try:
         got, _ = evaluate(prog, "sort_and_trim", MIN)
@@ -139,6 +139,10 @@ def run(prog: Program, res: Result) -> None:
         if not ok:
             res.add(Finding(P, "C17.R2-trim-keeps-cheapest", "helpers.sort_and_trim::window", prog.func(f"{PKG}.helpers.sort_and_trim").loc(),
                             f"sort_and_trim returns {got.show() if isinstance(got, L) else got}: the merged population no longer keeps its cheapest agents"))
+    except OrdDeviation as exc:
+        res.ob(False)
+        res.add(Finding(P, "C17.R2-trim-keeps-cheapest", "helpers.sort_and_trim::key", prog.func(f"{PKG}.helpers.sort_and_trim").loc(),
+                        f"sort_and_trim no longer ranks by cost ({exc}): the trim can drop the cheapest agent"))
     except OrdUnknown as exc:
         res.errors.append(f"ORD cannot evaluate sort_and_trim: {exc}")
 
